@@ -76,37 +76,30 @@ func (in *Interp) installStubs2() {
 		abortf("reflect.Value.Len on %T", a[0].(reflectV).V.V)
 		return nil
 	}
-	// stable insertion sort driven by the target's less closure
-	sortSlice := func(in *Interp, a []Value) Value {
-		sl := a[0].(Iface).V.(SliceV)
-		less := a[1]
-		for i := 1; i < sl.Len; i++ {
-			for j := i; j > 0; j-- {
-				r := in.callValue(less, []Value{st.BVConstI(int64(j), 64), st.BVConstI(int64(j-1), 64)}).(*smt.Term)
-				if !in.Ctx.Branch(r) {
-					break
-				}
-				c := sl.Arr.Cells
-				c[sl.Off+j], c[sl.Off+j-1] = c[sl.Off+j-1], c[sl.Off+j]
-			}
+	// sort.Slice / sort.SliceStable / sort.Strings run their real stdlib code; only the
+	// reflection helpers they use are intrinsics.
+	S["internal/reflectlite.ValueOf"] = func(in *Interp, a []Value) Value { return reflectV{a[0].(Iface)} }
+	S["(internal/reflectlite.Value).Len"] = S["(reflect.Value).Len"]
+	S["internal/reflectlite.Swapper"] = func(in *Interp, a []Value) Value {
+		sl, ok := a[0].(Iface).V.(SliceV)
+		if !ok {
+			in.panicf("reflect: call of Swapper on a non-slice")
 		}
-		return nil
-	}
-	S["sort.Slice"] = sortSlice
-	S["sort.SliceStable"] = sortSlice
-	S["sort.Strings"] = func(in *Interp, a []Value) Value {
-		sl := a[0].(SliceV)
-		for i := 1; i < sl.Len; i++ {
-			for j := i; j > 0; j-- {
-				c := sl.Arr.Cells
-				if !in.Ctx.Branch(in.strLess(c[sl.Off+j].(Str), c[sl.Off+j-1].(Str))) {
-					break
-				}
-				c[sl.Off+j], c[sl.Off+j-1] = c[sl.Off+j-1], c[sl.Off+j]
+		return &Closure{Name: "swapper", Native: func(in *Interp, args []Value) Value {
+			i := in.concInt(args[0], "swap index")
+			j := in.concInt(args[1], "swap index")
+			if i < 0 || j < 0 || i >= sl.Len || j >= sl.Len {
+				in.panicf("reflect: slice index out of range")
 			}
-		}
-		return nil
+			c := sl.Arr.Cells
+			if sl.Arr.Frozen && in.MonitorOn {
+				in.sharedWrite("swap", c[sl.Off+i], c[sl.Off+j])
+			}
+			c[sl.Off+i], c[sl.Off+j] = c[sl.Off+j], c[sl.Off+i]
+			return nil
+		}}
 	}
+	S["reflect.Swapper"] = S["internal/reflectlite.Swapper"]
 	S["strconv.AppendInt"] = func(in *Interp, a []Value) Value {
 		t := a[1].(*smt.Term)
 		if !t.IsConst() {
